@@ -340,6 +340,61 @@ def bisect_unsorted(model: Model, fn: FunctionInfo) -> list[Lint]:
     return out
 
 
+def _materialised(g: FunctionInfo, e: ast.expr, depth: int = 0) -> bool:
+    """Is the argument expression a re-iterable container (a display, a list / sorted / set / dict / tuple call,
+    a non-generator comprehension, an attribute of an object, or a local bound only to such)?"""
+    if isinstance(e, (ast.List, ast.Tuple, ast.Set, ast.Dict, ast.ListComp, ast.SetComp, ast.DictComp, ast.Constant, ast.Attribute, ast.Subscript)):
+        return True
+    if isinstance(e, ast.Call) and isinstance(e.func, ast.Name) and e.func.id in ("sorted", "list", "tuple", "set", "frozenset", "dict"):
+        return True
+    if isinstance(e, ast.Call) and isinstance(e.func, ast.Attribute) and e.func.attr in ("values", "keys", "items", "copy", "split", "splitlines"):
+        return True
+    if isinstance(e, ast.Name) and depth < 3:
+        binds = [a.value for a in ast.walk(g.node) if isinstance(a, ast.Assign) and any(isinstance(t, ast.Name) and t.id == e.id for t in a.targets)]
+        binds += [a.value for a in ast.walk(g.node) if isinstance(a, ast.AnnAssign) and isinstance(a.target, ast.Name) and a.target.id == e.id and a.value is not None]
+        is_param = any(q.name == e.id for q in g.params)
+        if binds and not is_param:
+            return all(_materialised(g, b, depth + 1) for b in binds)
+        if binds and is_param:
+            # a parameter that the caller re-binds before the call (`records = sorted(records)`): judged by the binding
+            return all(_materialised(g, b, depth + 1) for b in binds) and all(getattr(b, "lineno", 0) < getattr(e, "lineno", 10**9) for b in binds)
+    return False
+
+
+def _only_materialised_callers(model: Model, fn: FunctionInfo, pname: str) -> bool:
+    """Every call of the private helper ``fn`` in the package passes a re-iterable container for ``pname``."""
+    names = [q.name for q in fn.params]
+    idx = names.index(pname) - (1 if fn.cls is not None and fn.self_name and not fn.is_staticmethod else 0)
+    seen = 0
+    for g in model.functions.values():
+        for n in ast.walk(g.node):
+            if not isinstance(n, ast.Call):
+                continue
+            f = n.func
+            cname = f.id if isinstance(f, ast.Name) else f.attr if isinstance(f, ast.Attribute) else None
+            if cname != fn.name:
+                continue
+            arg = None
+            if 0 <= idx < len(n.args) and not any(isinstance(a, ast.Starred) for a in n.args[: idx + 1]):
+                arg = n.args[idx]
+            for k in n.keywords:
+                if k.arg == pname:
+                    arg = k.value
+            if arg is None:
+                return False
+            seen += 1
+            if not _materialised(g, arg):
+                return False
+    # the helper escaping as a value (passed around) cannot be judged
+    for g in model.functions.values():
+        for n in ast.walk(g.node):
+            if isinstance(n, ast.Name) and n.id == fn.name and isinstance(n.ctx, ast.Load):
+                parent_calls = [c for c in ast.walk(g.node) if isinstance(c, ast.Call) and c.func is n]
+                if not parent_calls:
+                    return False
+    return seen > 0
+
+
 def iterable_param_reuse(model: Model, fn: FunctionInfo) -> list[Lint]:
     """A parameter annotated ``Iterable`` / ``Iterator`` (callers may pass a generator) is consumed twice - or
     inside a loop - before the function has materialised it: the second consumer sees it exhausted."""
@@ -350,8 +405,10 @@ def iterable_param_reuse(model: Model, fn: FunctionInfo) -> list[Lint]:
         ann = ast.unparse(p.annotation)
         import re as _re
 
-        outer = _re.search(r"\b(Iterable|Iterator|Sequence|Collection|Mapping|list|List|set|Set|dict|Dict|tuple|Tuple|frozenset|str)\b", ann)
+        outer = _re.search(r"\b(Callable|Iterable|Iterator|Sequence|Collection|Mapping|list|List|set|Set|dict|Dict|tuple|Tuple|frozenset|str|type|Type)\b", ann)
         if outer is None or outer.group(1) not in ("Iterable", "Iterator"):
+            continue
+        if fn.name.startswith("_") and not fn.name.startswith("__") and _only_materialised_callers(model, fn, p.name):
             continue
         rebinds = [n.lineno for n in ast.walk(fn.node) if isinstance(n, ast.Name) and n.id == p.name and isinstance(n.ctx, ast.Store)]
         first_rebind = min(rebinds, default=10**9)
